@@ -23,6 +23,13 @@ def _scratch_cwd():
         apirec.EnvWatch.root = _CWD          # the whole scratch area is watched, the working directory is a sub-directory of it
     os.makedirs(os.path.join(_CWD, "a"), exist_ok=True)
     os.chdir(os.path.join(_CWD, "a"))
+    # bystander files next to where the reports go (temporary / backup names of the reports, an unrelated note): the report is
+    # the ONLY file a report request writes - these must be neither written, renamed nor removed
+    for nm in ("cm_colors_quick_report.html.tmp", "cm_colors_bulk_report.html.tmp", "cm_colors_quick_report.html.bak", "cm_colors_bulk_report.html~",
+               ".cm_colors_bulk_report.html.swp", "cm_colors_report.html", "notes.txt"):
+        if not os.path.exists(nm):
+            with open(nm, "w") as f:
+                f.write("bystander\n")
     return _CWD
 
 
@@ -62,10 +69,11 @@ def _case(job):
         ops.append(["chdir", "a"])
     ents = [[E(text), E(bg), large], [E("#777777"), E("#ffffff"), True], [E("bogus"), E("#fff")], [E(text), E(bg), large],
             [E(list(a)), E(list(b))], [E([a[0], a[1], a[2], 0.5]), E(bg)]]
-    ops.append(["bulk", ents, m, vr, False])
+    how = ("list", "tuple", "iter", "gen")[seed % 4]       # the entries as a list, a tuple, or a one-shot iterator
+    ops.append(["bulk", ents, m, vr, False, how])
     if save:
-        ops.append(["bulk", ents, m, vr, True])
-        ops.append(["bulk", ents, m, vr, False])
+        ops.append(["bulk", ents, m, vr, True, how])
+        ops.append(["bulk", ents, m, vr, False, "list"])
     raw = apirec.run_ops(ops, observe_env=True)
     return raw, (text, bg)
 
